@@ -233,7 +233,21 @@ func (e *effects) roots(cx *fnCtx, v ssa.Value) rootSet {
 				for _, st := range storesTo(al) {
 					r |= e.roots(cx, st.Val)
 				}
-				// filled through the address by callees / closures: conservatively also what flows to them
+				// a cell captured by a closure of this function and assigned there (items = col.Collection() inside the
+				// callback handed to an On* helper): the closure's parameters are views of this function's own
+				// arguments, so what it stores may alias any of them
+				if e.closureStoresRooted(cx.f, al) {
+					for i, p := range cx.f.Params {
+						if isPointerLike(p.Type()) {
+							r |= paramBit(i)
+						}
+					}
+					for i, fv := range cx.f.FreeVars {
+						if isPointerLike(fv.Type()) {
+							r |= paramBit(len(cx.f.Params) + i)
+						}
+					}
+				}
 				break
 			}
 			if fa, ok := base.(*ssa.FieldAddr); ok {
@@ -271,6 +285,40 @@ func (e *effects) roots(cx *fnCtx, v ssa.Value) rootSet {
 	}
 	cx.memo[v] = r
 	return r
+}
+
+// closureStoresRooted: some closure made in f captures the cell al and stores into it a value that points into
+// caller-visible memory of that closure (its parameters, free variables, globals).
+func (e *effects) closureStoresRooted(f *ssa.Function, al *ssa.Alloc) bool {
+	if al.Referrers() == nil {
+		return false
+	}
+	for _, r := range *al.Referrers() {
+		mc, ok := r.(*ssa.MakeClosure)
+		if !ok {
+			continue
+		}
+		g, ok := mc.Fn.(*ssa.Function)
+		if !ok {
+			continue
+		}
+		for bi, b := range mc.Bindings {
+			if b != ssa.Value(al) || bi >= len(g.FreeVars) {
+				continue
+			}
+			fv := g.FreeVars[bi]
+			if fv.Referrers() == nil {
+				continue
+			}
+			gcx := &fnCtx{f: g, memo: map[ssa.Value]rootSet{}, busy: map[ssa.Value]bool{}}
+			for _, rr := range *fv.Referrers() {
+				if st, ok := rr.(*ssa.Store); ok && st.Addr == ssa.Value(fv) && e.roots(gcx, st.Val) != 0 {
+					return true
+				}
+			}
+		}
+	}
+	return false
 }
 
 func extName(fn *ssa.Function) string {
